@@ -77,4 +77,68 @@ def comulId (h t : Int) (c : AA) : List Int :=
     c.1 * d1.2.2.2 + c.2.2.1 * dX.2.2.2,  -- X⊗X⊗1
     c.2.1 * d1.2.2.2 + c.2.2.2 * dX.2.2.2 ] -- X⊗X⊗X
 
+/-! ### popcount / edge-sign lemmas (for `edgeSign_anticomm`) -/
+
+theorem popcount_succ (x k : Nat) :
+    popcount x (k + 1) = popcount x k + (if x.testBit k then 1 else 0) := by
+  unfold popcount
+  rw [List.range_succ, List.filter_append, List.length_append]
+  cases h : x.testBit k <;> simp [h]
+
+theorem popcount_mod (s k : Nat) : popcount (s % 2 ^ k) k = popcount s k := by
+  unfold popcount
+  congr 1
+  apply List.filter_congr
+  intro i hi
+  rw [Nat.testBit_mod_two_pow]
+  simp [List.mem_range.mp hi]
+
+theorem testBit_or_bit (s i k : Nat) :
+    (s ||| (1 <<< i)).testBit k = (s.testBit k || decide (i = k)) := by
+  rw [Nat.testBit_or, Nat.one_shiftLeft, Nat.testBit_two_pow]
+
+theorem popcount_or_le (s i k : Nat) (hk : k ≤ i) :
+    popcount (s ||| (1 <<< i)) k = popcount s k := by
+  unfold popcount
+  congr 1
+  apply List.filter_congr
+  intro x hx
+  have : x < k := List.mem_range.mp hx
+  rw [testBit_or_bit]
+  have : ¬ i = x := by omega
+  simp [this]
+
+theorem popcount_or_gt (s i j : Nat) (hi : s.testBit i = false) (hj : i < j) :
+    popcount (s ||| (1 <<< i)) j = popcount s j + 1 := by
+  induction j with
+  | zero => omega
+  | succ j ih =>
+    rw [popcount_succ, popcount_succ, testBit_or_bit]
+    by_cases h : i = j
+    · subst h
+      rw [popcount_or_le s i i (Nat.le_refl _), hi]
+      simp
+    · have hlt : i < j := by omega
+      rw [ih hlt]
+      simp [h]
+      omega
+
+theorem edgeSign_eq (s k : Nat) : edgeSign s k = if popcount s k % 2 = 0 then 1 else -1 := by
+  unfold edgeSign
+  rw [popcount_mod]
+  simp
+
+theorem edgeSign_or_le (s i k : Nat) (hk : k ≤ i) :
+    edgeSign (s ||| (1 <<< i)) k = edgeSign s k := by
+  rw [edgeSign_eq, edgeSign_eq, popcount_or_le s i k hk]
+
+theorem edgeSign_or_gt (s i j : Nat) (hi : s.testBit i = false) (hj : i < j) :
+    edgeSign (s ||| (1 <<< i)) j = - edgeSign s j := by
+  rw [edgeSign_eq, edgeSign_eq, popcount_or_gt s i j hi hj]
+  rcases Nat.mod_two_eq_zero_or_one (popcount s j) with h | h
+  · have : (popcount s j + 1) % 2 = 1 := by omega
+    simp [h, this]
+  · have : (popcount s j + 1) % 2 = 0 := by omega
+    simp [h, this]
+
 end Yuiv.KhRef
